@@ -118,3 +118,23 @@ var VarNames []string
 // StaticWriteSites is filled by the generated code: for each variable the number of write sites
 // outside package initialisation.
 var StaticWriteSites []int
+
+// CatAssign charges `s += x` by the size of the resulting string and returns x.
+func CatAssign(s, x string) string {
+	charge(int64(len(s)+len(x)) + 1)
+	return x
+}
+
+// SpreadB / SpreadS charge append(dst, src...) and copy(dst, src) by the bytes moved.
+func SpreadB(b []byte) []byte {
+	charge(int64(len(b)) + 1)
+	return b
+}
+
+func SpreadS(s string) string {
+	charge(int64(len(s)) + 1)
+	return s
+}
+
+// KV is one map entry handed out by SortedMap.
+type KV struct{ K, V interface{} }
